@@ -29,6 +29,17 @@ func init() {
 	register("DBG", "debug: every rule over the whole module",
 		ruleRunOnce(nil, 0), ruleMemberLoops(nil, 0, 0))
 
+	register("C19",
+		"Sound may-write analysis of the six read-only quadtree queries: every store reachable from them targets a per-call allocation or the caller's result buffer; no package-level variable is written. Decided for all schedules and all trees, modulo the stated assumptions.",
+		ruleNoWrite("quadtree queries", quadtreeQueries, 6, 20),
+	)
+
+	register("C06",
+		"Structural necessary conditions of 'Clone is deep': points-to freshness of every Clone result at every nesting level and no write to the argument; coordinates are only moved. Equal/Bound numeric laws are NOT decided.",
+		ruleFreshResult("clone family", cloneFamily, 8),
+		ruleNoWrite("clone family", cloneFamily, 8, 5),
+	)
+
 	register("C01",
 		"Structural necessary conditions of 'WKB/EWKB is lossless': coordinates are only moved and bit-cast on the codec path (no float computation, so every float64 bit pattern survives); every member loop of the writer covers all members. Value-level round-trip equality is NOT decided.",
 		ruleFloatPure(inWKB, nil, 70),
@@ -47,9 +58,56 @@ func init() {
 		ruleNarrowArith(inDecoders, 2),
 	)
 
+	register("C10",
+		"Structural necessary conditions of 'planar measures equal their exact values': every segment loop visits every consecutive pair and every member loop every member (or reads the skipped prefix elsewhere). Numeric identities are NOT decided.",
+		ruleMemberLoops(inPkgs("planar.", "internal/length."), 14, 5),
+		ruleRunOnce(inPkgs("planar.", "internal/length."), 20),
+	)
+
+	register("C14",
+		"Structural necessary conditions of 'tile covers contain every tile touched': every member of a multi-geometry/collection contributes (no loop cut after its first member, no skipped prefix) and the line walk visits every segment. The DDA, scan fill and merge arithmetic are NOT decided.",
+		ruleRunOnce(inPkgs("maptile/tilecover."), 15),
+		ruleMemberLoops(inPkgs("maptile/tilecover."), 5, 1),
+	)
+
+	register("C18",
+		"Structural necessary conditions of 'spherical measures sum over parts': member loops of polygon/multi-polygon/collection area and the shared length loops cover every member/segment. Identities on the sphere are NOT decided (thin claim).",
+		ruleMemberLoops(inPkgs("geo.", "internal/length."), 6, 2),
+		ruleRunOnce(inPkgs("geo.", "internal/length."), 8),
+	)
+
 	register("C20",
 		"Structural necessary conditions of 'generic entry points are total': typestate over dynamic kinds at every type switch / assertion on orb.Geometry, sealedness of the interface, no collection loop cut after its first member. Numeric agreement with typed functions is NOT decided.",
 		ruleSealed, ruleKinds,
 		ruleRunOnce(notGenerated, 200),
 	)
+}
+
+func quadtreeQueries(c *Ctx) []effectEntry {
+	var out []effectEntry
+	for _, m := range []string{"Find", "Matching", "KNearest", "KNearestMatching", "InBound", "InBoundMatching"} {
+		fn := c.P.funcByShortKey("quadtree.(*Quadtree)." + m)
+		roles := map[int]paramRole{}
+		if fn != nil {
+			for i, par := range fn.Params {
+				if par.Name() == "buf" {
+					roles[i] = roleCallerBuf
+				}
+			}
+		}
+		out = append(out, effectEntry{key: "quadtree.(*Quadtree)." + m, roles: roles})
+	}
+	return out
+}
+
+// cloneFamily: orb.Clone and every Clone method of a geometry kind.
+func cloneFamily(c *Ctx) []effectEntry {
+	out := []effectEntry{{key: "orb.Clone"}}
+	for _, k := range c.P.Kinds {
+		key := "orb.(" + k.Obj().Name() + ").Clone"
+		if c.P.funcByShortKey(key) != nil {
+			out = append(out, effectEntry{key: key})
+		}
+	}
+	return out
 }
